@@ -5,6 +5,7 @@
 From Coq Require Import List Bool Arith ZArith Reals.
 From Flocq Require Import Core.Core IEEE754.BinarySingleNaN.
 From VV Require Import Lib.B64 C10.Model C10.Proofs C10.Floats C10.Apollo C10.ApolloProofs C10.Check.
+From VV Require C11.Pystr C11.Model C11.Proofs.
 Import ListNotations.
 
 (* one axis, rows "a - b" that follow each other, printed in either order: after
@@ -91,7 +92,7 @@ Theorem C10_convert_error_is_value_times_sigma_percent :
    Rlt_bool (Rabs (rnd (rnd (B2R sigma * B2R score) * B2R c001))) (bpow radix2 1024) = true ->
    B2R (snd (convert (score, sigma))) = rnd (rnd (B2R sigma * B2R score) * B2R c001)
    /\ is_finite (snd (convert (score, sigma))) = is_finite sigma && is_finite score)%R.
-Proof. intros score sigma. split; [apply convert_error_expr | apply convert_error_real]. Qed.
+Proof. exact convert_error_full. Qed.
 Print Assumptions C10_convert_error_is_value_times_sigma_percent.
 
 (* Apollo3: on a well-formed standard-layout tree every result the Reader
@@ -108,3 +109,18 @@ Theorem C10_wellformed_check_sound :
   forall f : file, wf_fileb f = true -> wf_file f.
 Proof. exact wf_fileb_sound. Qed.
 Print Assumptions C10_wellformed_check_sound.
+
+(* shared with C11: the block the scanner returns for an edition is exactly
+   the text from that edition's start flag to its end flag *)
+Theorem C10_scan_blocks_keyed_by_batch :
+  forall (L : Type) (s0 : C11.Model.st L) t0 l0 body te le f s',
+  C11.Model.s_bs s0 = None -> C11.Model.s_fatal (C11.Model.set_flags s0 l0) = false ->
+  C11.Model.s_init s0 <> None ->
+  C11.Proofs.not_comment l0 -> C11.Pystr.contains C11.Model.kw_RESULTS l0 = true ->
+  (forall t l, In (t, l) body -> C11.Proofs.plain_line l) ->
+  C11.Proofs.not_comment le -> C11.Proofs.not_diverting le -> C11.Model.is_end_flag le = Some f ->
+  C11.Model.run s0 ((t0, l0) :: body ++ [(te, le)]) = C11.Model.OkS s' ->
+  exists bn, C11.Model.s_stores s' = (bn, t0 :: map fst body ++ [te]) :: C11.Model.s_stores s0 /\
+             C11.Model.od_get Z.eqb (C11.Model.s_coll s') bn = Some (t0 :: map fst body ++ [te]).
+Proof. exact @C11.Proofs.scan_blocks_keyed_by_batch. Qed.
+Print Assumptions C10_scan_blocks_keyed_by_batch.
